@@ -83,6 +83,10 @@ Section Decl.
                         match cl h, cl v with
                         | CHash, CConst CkTrue => Some (LfBool true, r')
                         | CHash, CConst CkFalse => Some (LfBool false, r')
+                        | CHash, CConst CkInt =>
+                            if text_eqb (txt v) [49%N] then Some (LfBool true, r')
+                            else if text_eqb (txt v) [48%N] then Some (LfBool false, r')
+                            else None
                         | _, _ => None
                         end
                     | _ => None
